@@ -208,13 +208,20 @@ func (t *Tags) RemoveTag(key string) {
 }
 
 func (t *Tags) RemoveTags(keys []string) {
-	for i, tag := range *t {
+	kept := (*t)[:0]
+	for _, tag := range *t {
+		remove := false
 		for _, key := range keys {
 			if tag.Key == key {
-				*t = append((*t)[:i], (*t)[i+1:]...)
+				remove = true
+				break
 			}
 		}
+		if !remove {
+			kept = append(kept, tag)
+		}
 	}
+	*t = kept
 }
 
 func (t *Tags) RemoveAllTags() {
